@@ -252,7 +252,7 @@ def gen_derive_partial_ord(struct_text):
     return txt
 
 
-def abstract_action_ctor(text):
+def abstract_action_ctor(text, lead="func, arg, address"):
     """R8: `let sender = address.into().0;` is dropped and
     `Action::new(X::new(<closure or future>, REST…))` becomes `mk_X(func, arg, address, REST…)`:
     the construction of the async event-sending future is not expressible in Verus. The period /
@@ -293,7 +293,8 @@ def abstract_action_ctor(text):
     if last:
         args.append(last)
     rest = args[1:]
-    repl = "mk_%s(%s)" % (x, ", ".join(["func", "arg", "address"] + rest))
+    lead_args = [a.strip() for a in lead.split(",") if a.strip() and a.strip() != "-"]
+    repl = "mk_%s(%s)" % (x, ", ".join(lead_args + rest))
     text = text[:toks[k].pos] + repl + text[toks[c].pos + 1:]
     return text, n + 1
 
@@ -321,7 +322,7 @@ def inline_guard(text, var, expr, lock_call, unlock_call):
 def abstract_async_block(text, var, replacement):
     """R8: `let VAR = async move { … };` -> `let VAR = REPLACEMENT;` (async blocks are outside Verus;
     the block's captured values are passed to an abstract constructor named in the template)."""
-    m = re.search(r"let %s = async move \{" % re.escape(var), text)
+    m = re.search(r"let %s = async (?:move )?\{" % re.escape(var), text)
     if not m:
         return text, 0
     o = m.end() - 1
